@@ -100,6 +100,13 @@ fn field_mutations(orig: &Value) -> Vec<(String, Option<Value>)> {
         m.push(("one-byte-long".into(), Some(json!(format!("{s}00")))));
         m.push(("unicode".into(), Some(json!("\u{1F600}\u{00e9}"))));
     }
+    // long values of multi-byte characters, at every alignment (error texts quote the offending value back: whatever
+    // the router does to that text - shorten it, escape it - must cope with a character that straddles a boundary)
+    for (cname, ch, n) in [("2-byte", "\u{00e9}", 70usize), ("3-byte", "\u{20ac}", 50), ("4-byte", "\u{1D11E}", 40)] {
+        for pad in 0..4usize {
+            m.push((format!("long-{cname}-characters-offset-{pad}"), Some(json!(format!("{}{}", "a".repeat(pad), ch.repeat(n))))));
+        }
+    }
     if orig.is_number() {
         for (n, x) in [("minus-one", json!(-1)), ("zero", json!(0)), ("u32-max", json!(4294967295u64)), ("u32-max-plus-one", json!(4294967296u64)), ("float", json!(1.5)), ("string-number", json!("1")), ("huge", json!(1e300))] {
             m.push((n.into(), Some(x)));
@@ -166,6 +173,13 @@ fn build_cases(tier: Tier) -> Vec<Case> {
         }
         for raw in ["", " ", "{", "}", "null", "[]", "\"str\"", "123", "{\"a\":1}", "{}", "true", "{\"signature\":\"x\"", "\u{feff}{}", "{\"user_id\":\"\\ud800\"}"] {
             cases.push(Case { req: Req::post(path, raw.as_bytes()), valid: None, desc: format!("{path} raw {raw:?}") });
+        }
+        // a body that is one long string of multi-byte characters, at every alignment
+        for (ch, n) in [("\u{00e9}", 70usize), ("\u{20ac}", 50), ("\u{1D11E}", 40)] {
+            for pad in 0..4usize {
+                let raw = format!("\"{}{}\"", "a".repeat(pad), ch.repeat(n));
+                cases.push(Case { req: Req::post(path, raw.as_bytes()), valid: None, desc: format!("{path} raw string of {n} {}-byte characters after {pad} ASCII ones", ch.len()) });
+            }
         }
         let bytes: Vec<u8> = (0..=255u8).collect();
         for b in bytes {
@@ -362,7 +376,7 @@ pub fn c15(tier: Tier) -> i32 {
     run.set("distinct_reply_kinds", json!(outcomes.len()));
     run.set("exhaustive", json!(true));
     run.set("samples", json!(samples));
-    run.set("rule", json!("finite grid, fully enumerated, through the real warp router + tonic server + tower on loopback: every single-field mutation (drop/null/number/array/object/empty/bool/odd hex/non-hex/one byte short/long/unicode/duplicated key; number boundaries for to_self_delay) of the valid body of each endpoint (thorough: all pairs), correctly signed blobs of 10 lengths, JSON nesting depths, raw strings, single bytes, bodies padded around each endpoint's size limit, missing content-length / content-type, 6 methods x 9 paths, and the valid requests in seven lifecycle states (registered, unregistered, expired, no slots, already triggered, bitcoind unreachable, slots at the u32 cap). Oracle: 200 + documented fields for valid requests; otherwise 4xx/503, a JSON {error, error_code} with a documented code whenever endpoint, method and size were acceptable, answer within 2 s, tower state unchanged for every non-200. distinct = distinct (method, path, body)"));
+    run.set("rule", json!("finite grid, fully enumerated, through the real warp router + tonic server + tower on loopback: every single-field mutation (drop/null/number/array/object/empty/bool/odd hex/non-hex/one byte short/long/unicode/long values of 2-, 3- and 4-byte characters at four alignments/duplicated key; number boundaries for to_self_delay) of the valid body of each endpoint (thorough: all pairs), correctly signed blobs of 10 lengths, JSON nesting depths, raw strings, single bytes, bodies padded around each endpoint's size limit, missing content-length / content-type, 6 methods x 9 paths, and the valid requests in seven lifecycle states (registered, unregistered, expired, no slots, already triggered, bitcoind unreachable, slots at the u32 cap). Oracle: 200 + documented fields for valid requests; otherwise 4xx/503, a JSON {error, error_code} with a documented code whenever endpoint, method and size were acceptable, answer within 2 s, tower state unchanged for every non-200. distinct = distinct (method, path, body)"));
     run.assume("requests are sent one at a time (concurrency is C10/C11's subject)");
     run.finish()
 }
